@@ -22,9 +22,9 @@ for l in open('/verif/properties.jsonl'):
 p = props[pid]
 wt = f"/tmp/wt/{pid}{suf}"
 subprocess.run(f"mkdir -p /tmp/wt && git -C /repo worktree add --detach {wt} HEAD -f", shell=True, stdout=subprocess.DEVNULL, stderr=subprocess.DEVNULL)
-if suf[0] in 'ijkrs':
+if suf[0] in 'ijklrs':
     subprocess.run(f"test -d {wt}/target || cp -a /repo/target {wt}/target", shell=True)
-tmpl = open('/verif/tools/seed_prompt_i.tmpl' if suf[0] in 'ijk' else '/verif/tools/refactor_prompt.tmpl' if suf[0] in 'rs' else '/verif/tools/seed_prompt_g.tmpl' if suf[0] in 'gh' else ('/verif/tools/seed_prompt_d.tmpl' if suf[0] in 'def' else '/verif/tools/seed_prompt.tmpl')).read()
+tmpl = open('/verif/tools/seed_prompt_i.tmpl' if suf[0] in 'ijkl' else '/verif/tools/refactor_prompt.tmpl' if suf[0] in 'rs' else '/verif/tools/seed_prompt_g.tmpl' if suf[0] in 'gh' else ('/verif/tools/seed_prompt_d.tmpl' if suf[0] in 'def' else '/verif/tools/seed_prompt.tmpl')).read()
 anch = ", ".join(p['anchors']['files']) + "; " + "; ".join(f"{m['name']} ({m['where']})" for m in p['anchors'].get('mechanism', []))
 print(tmpl.replace("{WT}", wt).replace("{ID}", pid).replace("{TITLE}", p.get('title', '')).replace("{STATEMENT}", p.get('statement', ''))
       .replace("{QUANT}", p['quantifier']['text']).replace("{ANCHORS}", anch).replace("{FOCUS}", focus))
